@@ -473,7 +473,7 @@ func (s *Sim) loop() (rep Report) {
 	quantum := time.Millisecond
 	maxSteps := s.cfg.MaxSteps
 	if maxSteps == 0 {
-		maxSteps = 400000
+		maxSteps = 1500000
 	}
 	for {
 		synctest.Wait()
